@@ -33,7 +33,7 @@ func init() {
 			}
 		}
 	}
-	req = append(req, "bitmap/empty", "bitmap/all-zero", "bitmap/all-one", "index/trailing", "index/no-trailing", "index/rebuilt-after-in-place-update", "ones>=32768", "ones>=65536", "words>=65536", "arguments-in-read-only-memory")
+	req = append(req, "bitmap/empty", "bitmap/all-zero", "bitmap/all-one", "index/trailing", "index/no-trailing", "index/rebuilt-after-in-place-update", "ones>=32768", "ones>=65536", "words>=65536", "arguments-in-read-only-memory", "long-run/calls>=100000-per-function")
 	register(&mon.Prop{
 		ID:    "C01",
 		Level: "exploration",
@@ -62,6 +62,7 @@ func init() {
 				{Name: "zoo", Env: 8, N: c.Pick(60000, 6000000), Run: c01Zoo},
 				{Name: "zoo-long", Env: 4, N: c.Pick(1000, 200000), Run: c01ZooLong},
 				{Name: "dense-long", Env: 4, N: c.Pick(8, 400), Run: c01DenseLong},
+				lrFamily(c01LongRun),
 			}
 		},
 	})
@@ -86,6 +87,13 @@ func c01Check(w *mon.W, words []uint64) bool {
 		return false
 	}
 	idxT := bitmap.IndexRank64(words, true)
+	if nw > 0 && words[0]&3 == 1 {
+		// a caller builds other indexes of the same bitmap in between (whatever the builders keep between calls may be
+		// shared between them)
+		w.Op = "IndexSelect32/IndexSelect32R64 (neighbouring builders between two rank builders)"
+		bitmap.IndexSelect32(words)
+		bitmap.IndexSelect32R64(words)
+	}
 	w.Op = "IndexRank128"
 	idx128 := bitmap.IndexRank128(words)
 	w.Eval(4)
